@@ -137,3 +137,14 @@ Theorem c01_update_where_witness :
   sort_strings (dml_reads "" upd_where_cx) = ["<default>.u"; "<default>.v"].
 Proof. split; apply update_where_in_known_finding. Qed.
 Print Assumptions c01_update_where_witness.
+
+(** * Lemma A with expression select items (functions, arithmetic, CASE, CAST, window functions; aliased or not; any depth; in
+    every SELECT at every nesting level): the whole Lemma-A fragment rendered by [r_stmt_x] (Tree/RenderExpr.v, layout validated
+    against the parser by suite T3-render-expr of check C02) reports exactly the specified tables. *)
+From SV Require Import Tree.RenderExpr Tree.LemmaAExpr.
+Theorem c01_exact_on_rendered_core_with_expressions : forall noise e s,
+  noise_ok noise = true -> env_ok e = true -> stmt_ok_a s = true -> LemmaAProofs.sshape s = true ->
+  stmt_reads (analyze e false (r_stmt_x noise s)) = sort_strings (spec_reads (e_cfg e) s) /\
+  stmt_writes (analyze e false (r_stmt_x noise s)) = sort_strings (spec_writes (e_cfg e) s).
+Proof. exact lemma_A_tables_x. Qed.
+Print Assumptions c01_exact_on_rendered_core_with_expressions.
